@@ -21,23 +21,21 @@ HERE = os.path.dirname(os.path.abspath(__file__))
 HOW = {'eval': 'replay driver `eval` (FileBuilder::eval_string; payload = all top-level bindings)',
        'buildfile': 'replay driver `buildfile` (FileBuilder::build on a temp file: type checker + VM, strict) == `ucg build`'}
 
-# Genuine defects of the real code inside these families (reported; excluded so that the stand-ins pass on HEAD):
-# (position, word): `let f = func(env) => env; let r = f(2);` builds and r == 2 -- the reserved word `env` is accepted as a
-# parameter name and shadows the environment symbol inside the body (every other reserved word is refused when the call binds
-# it).  Clause: "binding a reserved word is an error" / _index.md "reserved ... can not be used as a named binding".
-KNOWN = [('func_param', 'env'), ('func_param2', 'env'), ('map_param', 'env'), ('reduce_param', 'env')]
-# `ucg build` only (the type checker; eval_string is right): the type checker binds a function's parameters in the FILE scope.
-#  (1) a parameter that is also an earlier top-level binding is typed as that binding instead of hiding it:
-#      `let q = "s"; let f = func(q) => q + 1; let r = f(1);` -> "Type error: Expected str but got int" (r is 2 under eval_string);
-#  (2) after a call the parameter's name keeps the argument's type (for some bodies, e.g. a bare parameter or a literal):
-#      `let f = func(x, p) => x; let p = {a = 1}; let c = f(0, 3); let d = p.a;` -> "Type error: Invalid field selector";
-#      `let p = func(p) => p; let c = p(0); let d = p(1);` -> "Type error: Not a callable type: int".
-# Clauses: "a function sees ... the bindings that existed where it was defined plus its arguments" (the argument must hide the
-# outer name) and "neither its parameters ... leak into the caller".  Valid programs are refused; no invalid program is admitted (the
-# VM still refuses a leaked name).  Excluded from the buildfile runs exactly: programs in which a function parameter is also the name
-# of a top-level binding of the file (earlier or later, including the function itself) that is not an integer -- all generated call
-# arguments are integers, so an integer outer binding type-checks.  map / filter / reduce with an inline function, module locals and
-# `item` are not affected.
+# Genuine defects of the real code inside these families (reported; excluded so that the stand-ins pass on HEAD).
+# `ucg build` only (the type checker; eval_string is right): the type checker binds a function's parameters in the FILE scope.  Valid
+# programs are refused; no invalid program is admitted (the VM still refuses a leaked name).  Excluded from the buildfile runs exactly:
+# programs in which a parameter of a named function is also the name of a top-level binding of the file (earlier or later, including
+# the function itself) that is not an integer -- all generated call arguments are integers, so an integer outer binding type-checks.
+# map / filter / reduce with an inline function, module locals and `item` are not affected and stay in the families.
+KNOWN = [
+    dict(id='typecheck_param_typed_as_outer', input='let q = "s";\nlet f = func(q) => q + 1;\nlet r = f(1);',
+         observed='`ucg build`: "Type error: Expected str but got int" (FileBuilder::eval_string: r == 2): a parameter that is also an earlier top-level binding is typed as that binding',
+         clause='a function sees exactly the bindings that existed where it was defined plus its arguments (the argument hides the outer name inside the call)'),
+    dict(id='typecheck_param_leaks_into_file', input='let f = func(x, p) => x;\nlet p = {a = 1};\nlet c = f(0, 3);\nlet d = p.a;',
+         observed='`ucg build`: "Type error: Invalid field selector" (eval_string: d == 1); likewise `let p = func(p) => p; let c = p(0); let d = p(1);` -> "Not a callable type: int": '
+                  'after a call the parameter name keeps the argument type in the file scope of the type checker',
+         clause='neither its parameters nor a format string\'s `item` leak into the caller'),
+]
 KNOWN_BUILD = 'typed_shadow'
 
 POOL = ['a', 'b', 'c', 'd', 'p', 'q', 'r', 'x', 'y', 'item', 'u', 'acc']
@@ -505,14 +503,12 @@ def standin_reserved_positions(tier, seed):
     cases, meta = [], []
     for pos, tmpl in sorted(POSITIONS.items()):
         for w in words:
-            if (pos, w) in KNOWN:
-                continue
             for mode in ('eval', 'buildfile'):
                 cases.append(tmpl.replace('W', w)); meta.append((pos, w, mode))
         for mode in ('eval', 'buildfile'):                    # the template itself is fine with an ordinary name
             cases.append(tmpl.replace('W', 'okname')); meta.append((pos, None, mode))
-    bound = 'every published reserved word (%d) x %d binding positions (%s) x {eval, buildfile}; each template also with an ordinary name (must build); %d KNOWN exclusions' % (
-        len(words), len(POSITIONS), ', '.join(sorted(POSITIONS)), len(KNOWN))
+    bound = 'every published reserved word (%d) x %d binding positions (%s) x {eval, buildfile}; each template also with an ordinary name (must build)' % (
+        len(words), len(POSITIONS), ', '.join(sorted(POSITIONS)))
     res = {}
     for mode in ('eval', 'buildfile'):
         idx = [i for i, m in enumerate(meta) if m[2] == mode]
